@@ -960,6 +960,7 @@ package leveldb
 //@ func (*session).pickCompaction
 //@   props C07
 //@   safety off
+//@   sortedinput the tables of a level below the top are sorted by their largest keys (the C06 induction hypothesis); the reference clauses below do not depend on which table the search picks
 //@   ensures [C07:version-reference-given-back-when-there-is-nothing-to-compact] result == nil ==> calls("(*version).release") == old(calls("(*version).release")) + 1
 //@   guarantees [C07:version-reference-handed-to-the-compaction] result != nil ==> (calls("(*version).release") == old(calls("(*version).release")) && result.v == v)
 //@ func (*session).getCompactionRange
